@@ -7,6 +7,7 @@ pub mod c05;
 pub mod c06;
 pub mod c07;
 pub mod c08;
+pub mod c11;
 pub mod c12;
 
 pub fn run(ctx: &mut Ctx) {
@@ -20,6 +21,7 @@ pub fn run(ctx: &mut Ctx) {
         "C06" => c06::run_check(ctx),
         "C07" => c07::run_check(ctx),
         "C08" => c08::run_check(ctx),
+        "C11" => c11::run_check(ctx),
         "C12" => c12::run_check12(ctx),
         "C13" => c12::run_check13(ctx),
         other => {
@@ -38,6 +40,7 @@ pub fn replay(ctx: &mut Ctx, case: &serde_json::Value) {
         "C06" => c06::replay(ctx, case),
         "C07" => c07::replay(ctx, case),
         "C08" => c08::replay(ctx, case),
+        "C11" => c11::replay(ctx, case),
         "C12" | "C13" => c12::replay(ctx, case),
         other => {
             eprintln!("unknown property {}", other);
